@@ -24,7 +24,9 @@ Inductive rule := RSame | RExplicit (p : name) | RPrefix (p : name) | RClass.
 Inductive trait :=
 | Normal (k : vkind) (dflt : value)
 | Link                                             (* Instance(HasTraits): the delegate reference *)
-| Deleg (d : name) (r : rule) (modify : bool).     (* modify = DelegatesTo, not modify = PrototypedFrom *)
+| Deleg (d : name) (r : rule) (modify : bool)      (* modify = DelegatesTo, not modify = PrototypedFrom *)
+| PyAttr.                                          (* not declared: HasTraits' wildcard Python attribute
+                                                      (never in a class table; only [walk] produces it) *)
 
 Record cls := mkC { c_prefix : name; c_traits : list (name * trait) }.
 Record obj := mkO { o_cls : nat; o_dict : list (name * value) }.
@@ -124,6 +126,7 @@ Fixpoint read (fuel : nat) (st : state) (o : oid) (n : name) : res value :=
           match find_trait st o n with
           | Some (Normal _ d) => Ok d
           | Some Link => Ok VNone
+          | Some PyAttr => Raise AttributeError
           | Some (Deleg d r _) =>
               match read f st o d with
               | Ok (VObj p) => read f st p (attr_name r (c_prefix (cls_of st o)) n)
@@ -150,7 +153,9 @@ Fixpoint walk (fuel : nat) (st : state) (origin cur : oid) (d : name) (r : rule)
       | Ok (VObj p) =>
           let daname' := attr_name r (c_prefix (cls_of st origin)) daname in
           match find_trait st p daname' with
-          | None => Raise DelegationError                    (* bad_delegate_error (wf excludes) *)
+          | None => Ok (p, daname', PyAttr)                  (* get_prefix_trait: HasTraits' default wildcard
+                                                                 trait accepts any attribute (only reached when the
+                                                                 origin-prefix name of l.2602 does not exist) *)
           | Some (Deleg d' r' _) => walk f st origin p d' r' daname'
           | Some t => Ok (p, daname', t)
           end
@@ -193,6 +198,7 @@ Definition set_plain (st : state) (o : oid) (n : name) (t : trait) (v : value)
                  | Normal k _ => validate k v
                  | Link => validate_link v
                  | Deleg _ _ _ => None
+                 | PyAttr => Some v
                  end in
   match checked with
   | None => (st, Raised TraitError, [])
@@ -202,7 +208,10 @@ Definition set_plain (st : state) (o : oid) (n : name) (t : trait) (v : value)
                  | None => match t with Normal _ d => d | _ => VNone end
                  end in
       let st' := dict_set st o n w in
-      (st', Done, if value_eqb old w then [] else change_at notify_fuel st' (o, n) w)
+      (st', Done, match t with
+                  | PyAttr => []                                (* setattr_python: no notification *)
+                  | _ => if value_eqb old w then [] else change_at notify_fuel st' (o, n) w
+                  end)
   end.
 
 Definition set_attr (st : state) (o : oid) (n : name) (v : value) : state * outcome * list event :=
@@ -218,6 +227,7 @@ Definition set_attr (st : state) (o : oid) (n : name) (v : value) : state * outc
                            | Normal k _ => validate k v
                            | Link => validate_link v
                            | Deleg _ _ _ => None
+                           | PyAttr => Some v
                            end in
             match checked with
             | None => (st, Raised TraitError, [])
@@ -226,7 +236,10 @@ Definition set_attr (st : state) (o : oid) (n : name) (v : value) : state * outc
                 | Raise e => (st, Raised e, [])
                 | Ok old =>
                     let st1 := dict_set st o n w in
-                    let evs := if value_eqb old w then [] else change_at notify_fuel st1 (o, n) w in
+                    let evs := match t with
+                               | PyAttr => []
+                               | _ => if value_eqb old w then [] else change_at notify_fuel st1 (o, n) w
+                               end in
                     (ltab_del st1 (o, n), Done, evs)           (* _remove_trait_delegate_listener(name, 1) *)
                 end
             end
@@ -240,14 +253,18 @@ Definition del_attr (st : state) (o : oid) (n : name) : state * outcome * list e
   | Some (Deleg d r false) =>
       match walk 100 st o o d r n with
       | Raise e => (st, Raised e, [])
-      | Ok _ =>
+      | Ok (_, _, t) =>
           match dict_get st o n with
-          | None => (ltab_add st (o, n), Done, [])
+          | None => match t with
+                    | PyAttr => (st, Raised AttributeError, [])  (* setattr_python: nothing to delete *)
+                    | _ => (ltab_add st (o, n), Done, [])
+                    end
           | Some old =>
               let st1 := dict_del st o n in
-              let evs := match rd st1 o n with
-                         | Ok new => if value_eqb old new then [] else change_at notify_fuel st1 (o, n) new
-                         | Raise _ => []
+              let evs := match t, rd st1 o n with
+                         | PyAttr, _ => []                      (* setattr_python: no notification *)
+                         | _, Ok new => if value_eqb old new then [] else change_at notify_fuel st1 (o, n) new
+                         | _, Raise _ => []
                          end in
               (ltab_add st1 (o, n), Done, evs)                 (* _remove_trait_delegate_listener(name, 0) *)
           end
@@ -286,7 +303,8 @@ Definition step (st : state) (o : op) : state * obs :=
                           | Del x n => del_attr st x n
                           end in
   (* the recording handlers sit on every trait except the delegate references *)
-  let evs' := filter (fun e => negb (is_link st (fst (fst e)) (snd (fst e)))) evs in
+  let evs' := filter (fun e => negb (is_link st (fst (fst e)) (snd (fst e)))
+                               && match find_trait st (fst (fst e)) (snd (fst e)) with Some _ => true | None => false end) evs in
   (st', mkObs out evs' (snapshot st') (locals st')).
 
 Fixpoint run (st : state) (ops : list op) : list (op * obs) :=
